@@ -27,11 +27,13 @@ META = {
         'assumptions': ['Kani/CBMC model of rustc MIR semantics', 'hashbrown/ndarray models in /verif/models'],
     },
     'C03': {
+        'level_text': 'Bounded model checking of the kernels the end-to-end statement is composed of: per-sample dictionaries -> sample-by-k-mer table (all 16 presence patterns of 2 samples x 2 k-mers), the default align filter path (no-const site filter and the min-freq threshold arithmetic) and the FASTA writer. Build itself is C01/C02. The composition (planted SNPs -> exactly one column each) is argued in DESIGN.md section 3, not solved.',
         'bounds': 'table construction: 2 samples x 2 k-mers, the 16 presence patterns as separate obligations (quick: 3 by VERIF_SEED); FASTA writer: <= 2 x 3; default align filter path: C06.row no-const and C06.thr',
         'outside': ['the end-to-end statement (ancestor sequences, planted SNPs) beyond the kernels listed: build = C01/C02, table = C03.new, filter = C06, writer = C03.fasta; the composition is argued in DESIGN.md, only the kernels are solver-checked', 'more than 3 samples'],
         'assumptions': ['Kani/CBMC model of rustc MIR semantics', 'hashbrown/ndarray/needletail::write_fasta models in /verif/models'],
     },
     'C05': {
+        'level_text': 'Bounded model checking of the decidable kernels ONLY: the (contig, offset) iterator that places VCF records, the reference-byte to REF-base mapping over all 256 bytes, and (shared with C04) that the reference is stored upper-case. write_vcf itself (genotype numbering, ALT list, "." for gaps, header and sample order) cannot be encoded (noodles-vcf formatting, to_string on symbolic values, rayon) and is NOT decided by this check; a seeded change in its genotype index was, as expected, not detected.',
         'bounds': 'coordinate iterator: 3 contigs of length 1..=4 (4 x 1..=6 thorough); REF mapping: all 256 bytes',
         'outside': ['write_vcf itself (rayon pseudo-alignment, genotype strings via to_string, noodles-vcf formatting): allele numbering, "." for "-", header and sample order are NOT decided by this check', 'empty contigs'],
         'assumptions': ['Kani/CBMC model of rustc MIR semantics', 'every contig is non-empty'],
@@ -47,6 +49,7 @@ META = {
         'assumptions': ['Kani/CBMC model of rustc MIR semantics', 'hashbrown/ndarray models', 'MergeSkaArray::save replaced by a call counter (environment stub)'],
     },
     'C10': {
+        'level_text': 'Bounded model checking that the only state carried between operations besides k, strand mode, names, k-mers and bases -- the stored per-k-mer count -- is ignored by its readers (filter, delete_samples) and recomputed by the operations that save (delete, weed, merge round trip, filter); sequences of operations are covered by that argument, not explored.',
         'bounds': 'readers ignore stored counts: 1 k-mer x 3 samples, arbitrary stored count, 4 flag combinations; operations (delete, weed, merge round trip, recount) on 2 x 3 tables: shared with C06.cnt, C07.rt, C08, C13',
         'outside': ['operation sequences longer than one step are covered by the argument "the only carried state besides k/strand/names/k-mers/bases is variant_count, and its only reader ignores it"; save/reload (C09) is not encodable'],
         'assumptions': ['Kani/CBMC model of rustc MIR semantics', 'filter() is the only reader of variant_count (established by reading the code, re-checked by grep in the driver is NOT done)'],
